@@ -1,4 +1,5 @@
 import HC.Proto.H2Recv
+import HC.Proto.H11
 /-!
 # C04 — no client input causes an internal error; HTTP/2 faults stay on their stream
 
@@ -511,12 +512,14 @@ theorem streamBody_ok (s : St) (sid : Nat) (op : AppOp) (hI : Inv s) (hw : op.wf
       · exact resetAbandoned_ok s sid lib hI hl
       · exact ⟨hI, rfl⟩
     simp only [streamBody]
-    rcases hp : (if (abandon && s.buffers.contains sid && s.streams.contains sid) = true then resetAbandoned s sid lib else ((s, [], none) : Partial)) with ⟨s1, o1, err⟩
-    rw [hp] at hpre
-    obtain ⟨hIa, hna⟩ := hpre
-    simp only at hna
-    subst hna
-    exact ⟨(closeStream_inv s1 sid hIa).1, by intro e he; cases he⟩
+    split
+    · exact ⟨hI, by intro e he; cases he⟩
+    · rcases hp : (if (abandon && s.buffers.contains sid && s.streams.contains sid) = true then resetAbandoned s sid lib else ((s, [], none) : Partial)) with ⟨s1, o1, err⟩
+      rw [hp] at hpre
+      obtain ⟨hIa, hna⟩ := hpre
+      simp only at hna
+      subst hna
+      exact ⟨(closeStream_inv s1 sid hIa).1, by intro e he; cases he⟩
 
 theorem streamSend_ok (s : St) (sid : Nat) (op : AppOp) (hI : Inv s) (hw : op.wf = true) :
     ∃ s1 o1, streamSend s sid op = .ok (s1, o1) ∧ Inv s1 := by
@@ -734,5 +737,72 @@ theorem unusual_request_answered (s : St) (r : Req) (ins : Option Exn) (hw : r.w
     createStream s r ins none = .ok (s, [.h2call "send_headers" r.sid false, .flush]) := by
   simp only [Req.wf, Bool.and_eq_true] at hw
   rw [createStream_rejected s r ins none hw.1 hodd]; rfl
+
+/-! ### HTTP/1: the malformed-request path of `H11Protocol._handle_events` (model `HC.Proto.H11` over `H11M`) -/
+
+section H1
+open HC HC.Proto HC.Lib
+
+/-- the headers of the protocol-level error response, before the server's own headers -/
+def errorHeaders (cfg : H11.Cfg) : Headers := [("content-length".b, "0".b), ("connection".b, "close".b)] ++ cfg.serverHeaders
+
+/-- what the model's error path hard-codes is what the source says now: the states in which the hinted response is sent,
+    its fixed headers, the EndOfMessage after it, and the class the `except` around `next_event()` names -/
+theorem h1_error_guard : C04Sites.h11ErrorStates = ["IDLE", "SEND_RESPONSE"] ∧
+    C04Sites.h11ErrorHeaders = [("content-length", "0"), ("connection", "close")] ∧ C04Sites.h11ErrorSendsEom = true ∧
+    C04Sites.h11NextEvent = ["h11.RemoteProtocolError"] ∧ C04Sites.h11SendEvent = ["h11.LocalProtocolError"] := by decide
+
+/-- **h1_malformed**: `next_event()` raised RemoteProtocolError with hint `h` while no complete request is being answered
+    and h11's writer is IDLE or SEND_RESPONSE: the protocol does exactly two things with h11 — `send(Response h
+    [content-length: 0, connection: close, <server headers>])` and `send(EndOfMessage)` — then sends `Closed`, and the
+    reader leaves the loop.  Nothing else is emitted. -/
+theorem h1_malformed (cfg : H11.Cfg) (st : H11.St) (o0 : List H11.Out) (hint : Nat)
+    (hlive : (st.cur.isSome && st.requestComplete) = false)
+    (hstate : (H11M.recvError st.lib).server = .idle ∨ (H11M.recvError st.lib).server = .sendResponse) :
+    H11.onLibEvBody cfg st o0 (H11.LibEv.protoError hint) =
+      some ({ (H11.libSend (H11.libSend { st with lib := H11M.recvError st.lib } (H11.LibSend.response hint (errorHeaders cfg))).1 H11.LibSend.eom).1 with pc := .idle },
+            o0 ++ ((H11.libSend { st with lib := H11M.recvError st.lib } (H11.LibSend.response hint (errorHeaders cfg))).2.1 ++
+                   (H11.libSend (H11.libSend { st with lib := H11M.recvError st.lib } (H11.LibSend.response hint (errorHeaders cfg))).1 H11.LibSend.eom).2.1) ++ [H11.Out.upClosed]) := by
+  simp only [H11.onLibEvBody, hlive, errorHeaders]
+  rcases hstate with h | h <;> simp [h]
+
+/-- a call into h11 starts no application and creates no stream -/
+theorem libSend_keeps (st : H11.St) (e : H11.LibSend) :
+    (H11.libSend st e).1.spawns = st.spawns ∧ (H11.libSend st e).1.objs = st.objs ∧ (H11.libSend st e).1.cur = st.cur := by
+  cases e <;> simp only [H11.libSend] <;> split <;> exact ⟨rfl, rfl, rfl⟩
+
+/-- … so the malformed input starts no application: the spawn counter and the stream objects are what they were -/
+theorem h1_malformed_no_app (cfg : H11.Cfg) (st st' : H11.St) (o0 o : List H11.Out) (hint : Nat)
+    (hlive : (st.cur.isSome && st.requestComplete) = false)
+    (hstate : (H11M.recvError st.lib).server = .idle ∨ (H11M.recvError st.lib).server = .sendResponse)
+    (h : H11.onLibEvBody cfg st o0 (H11.LibEv.protoError hint) = some (st', o)) : st'.spawns = st.spawns ∧ st'.objs = st.objs := by
+  rw [h1_malformed cfg st o0 hint hlive hstate] at h
+  simp only [Option.some.injEq, Prod.mk.injEq] at h
+  obtain ⟨h1, _⟩ := h
+  subst h1
+  have a := libSend_keeps { st with lib := H11M.recvError st.lib } (H11.LibSend.response hint (errorHeaders cfg))
+  have b := libSend_keeps (H11.libSend { st with lib := H11M.recvError st.lib } (H11.LibSend.response hint (errorHeaders cfg))).1 .eom
+  exact ⟨by simp [b.1, a.1], by simp [b.2.1, a.2.1]⟩
+
+/-- in any other writer state nothing is sent, only `Closed` -/
+theorem h1_malformed_other_state (cfg : H11.Cfg) (st : H11.St) (o0 : List H11.Out) (hint : Nat)
+    (hlive : (st.cur.isSome && st.requestComplete) = false)
+    (hstate : (H11M.recvError st.lib).server ≠ .idle ∧ (H11M.recvError st.lib).server ≠ .sendResponse) :
+    H11.onLibEvBody cfg st o0 (H11.LibEv.protoError hint) = some ({ st with lib := H11M.recvError st.lib, pc := .idle }, o0 ++ [H11.Out.upClosed]) := by
+  simp [H11.onLibEvBody, hlive, hstate.1, hstate.2]
+
+/-- the RemoteProtocolError path never fails (it is the one event the reader handles in every state) -/
+theorem h1_protocol_error_total (cfg : H11.Cfg) (st : H11.St) (o0 : List H11.Out) (hint : Nat) :
+    (H11.onLibEvBody cfg st o0 (H11.LibEv.protoError hint)).isSome = true := by
+  simp only [H11.onLibEvBody]
+  split <;> simp
+
+end H1
+
+/-- the one place where WSStream answers early data is the state the source names (F40): the Ws model's branch is tied
+    to it -/
+theorem ws_early_data_guard : C04Sites.wsEarlyDataAnsweredIn = "HANDSHAKE" ∧ C04Sites.wsSendEvent = ["wsproto.LocalProtocolError"] ∧
+    C04Sites.wsBufferExtend = ["FrameTooLargeError"] ∧ C04Sites.utilsHostDecode = ["UnicodeDecodeError"] ∧
+    C04Sites.wsHandshakeSplit = ["UnicodeDecodeError"] := by decide
 
 end HC.Props.C04
